@@ -1,20 +1,20 @@
--- C11 helper lemmas (rpjive): under the plumbing statement `Mds8.mm_eq_tail_statement` (NOT proved in
--- Lean, covered by the correspondence harness) the MDS step and one full round on raw words denote
+-- C11 helper lemmas (rpjive): the MDS step (through `Mds8.mm_eq_tail`) and one full round on raw words denote
 -- the reference round on residues.  Written by gen_c11_round.py; checked by Lean.
 import Winter.Model.Rescue
 import WinterProofs.Lemmas.C07F64Z
 import WinterProofs.Lemmas.C11Mds8
 import WinterProofs.Lemmas.C11RoundCommon
 import WinterProofs.Lemmas.C11Sbox
+import WinterProofs.Lemmas.C11Sem
 set_option linter.unusedSimpArgs false
 set_option linter.unusedVariables false
 set_option maxRecDepth 100000
 
 namespace WinterProofs.C11.Round8
-open Gen Model Model.Rescue WinterProofs.F64Z WinterProofs.C11 WinterProofs.C11.RoundCommon
+open Gen Model Model.Rescue WinterProofs.F64Z WinterProofs.C11 WinterProofs.C11.RoundCommon WinterProofs.C11.Sem
 
 /-- `apply_mds` on ANY 64-bit raw words: 64-bit words whose residues are the matrix-vector product -/
-theorem mds_spec (hglue : WinterProofs.C11.Mds8.mm_eq_tail_statement) (x0 x1 x2 x3 x4 x5 x6 x7 : Nat) (hx0 : x0 < 18446744073709551616) (hx1 : x1 < 18446744073709551616) (hx2 : x2 < 18446744073709551616) (hx3 : x3 < 18446744073709551616) (hx4 : x4 < 18446744073709551616) (hx5 : x5 < 18446744073709551616) (hx6 : x6 < 18446744073709551616) (hx7 : x7 < 18446744073709551616) :
+theorem mds_spec (x0 x1 x2 x3 x4 x5 x6 x7 : Nat) (hx0 : x0 < 18446744073709551616) (hx1 : x1 < 18446744073709551616) (hx2 : x2 < 18446744073709551616) (hx3 : x3 < 18446744073709551616) (hx4 : x4 < 18446744073709551616) (hx5 : x5 < 18446744073709551616) (hx6 : x6 < 18446744073709551616) (hx7 : x7 < 18446744073709551616) :
     ∃ y0 y1 y2 y3 y4 y5 y6 y7 : Nat, mds8 [x0, x1, x2, x3, x4, x5, x6, x7] = [y0, y1, y2, y3, y4, y5, y6, y7] ∧
       (y0 < 18446744073709551616 ∧ val y0 = (23 : ZMod P) * val x0 + (8 : ZMod P) * val x1 + (13 : ZMod P) * val x2 + (10 : ZMod P) * val x3 + (7 : ZMod P) * val x4 + (6 : ZMod P) * val x5 + (21 : ZMod P) * val x6 + (8 : ZMod P) * val x7) ∧
       (y1 < 18446744073709551616 ∧ val y1 = (8 : ZMod P) * val x0 + (23 : ZMod P) * val x1 + (8 : ZMod P) * val x2 + (13 : ZMod P) * val x3 + (10 : ZMod P) * val x4 + (7 : ZMod P) * val x5 + (6 : ZMod P) * val x6 + (21 : ZMod P) * val x7) ∧
@@ -40,7 +40,7 @@ theorem mds_spec (hglue : WinterProofs.C11.Mds8.mm_eq_tail_statement) (x0 x1 x2 
   have hl6 : x6 % 4294967296 < 4294967296 := by omega
   have hh7 : x7 / 4294967296 < 4294967296 := by omega
   have hl7 : x7 % 4294967296 < 4294967296 := by omega
-  have hg := hglue x0 x1 x2 x3 x4 x5 x6 x7
+  have hg := WinterProofs.C11.Mds8.mm_eq_tail x0 x1 x2 x3 x4 x5 x6 x7
   rw [WinterProofs.C11.Mds8.freq_eq_tuple _ _ _ _ _ _ _ _ hh0 hh1 hh2 hh3 hh4 hh5 hh6 hh7, WinterProofs.C11.Mds8.freq_eq_tuple _ _ _ _ _ _ _ _ hl0 hl1 hl2 hl3 hl4 hl5 hl6 hl7] at hg
   dsimp only at hg
   have f0 := tail_cast (23 * (x0 % 4294967296) + 8 * (x1 % 4294967296) + 13 * (x2 % 4294967296) + 10 * (x3 % 4294967296) + 7 * (x4 % 4294967296) + 6 * (x5 % 4294967296) + 21 * (x6 % 4294967296) + 8 * (x7 % 4294967296)) (23 * (x0 / 4294967296) + 8 * (x1 / 4294967296) + 13 * (x2 / 4294967296) + 10 * (x3 / 4294967296) + 7 * (x4 / 4294967296) + 6 * (x5 / 4294967296) + 21 * (x6 / 4294967296) + 8 * (x7 / 4294967296)) (23 * x0 + 8 * x1 + 13 * x2 + 10 * x3 + 7 * x4 + 6 * x5 + 21 * x6 + 8 * x7) (by omega) (by omega) (by omega)
@@ -79,8 +79,7 @@ theorem mds_table_eq : Gen.Rp64Jive.MDS = [[23, 8, 13, 10, 7, 6, 21, 8], [8, 23,
 
 /-- one round on valid raw words, with round constants whose raw words are `<= p - 2^32`: the
     result consists of valid raw words and denotes the reference round -/
-theorem round_spec (hglue : WinterProofs.C11.Mds8.mm_eq_tail_statement)
-    (x0 x1 x2 x3 x4 x5 x6 x7 a0 a1 a2 a3 a4 a5 a6 a7 b0 b1 b2 b3 b4 b5 b6 b7 : Nat) (hx0 : Inv x0) (hx1 : Inv x1) (hx2 : Inv x2) (hx3 : Inv x3) (hx4 : Inv x4) (hx5 : Inv x5) (hx6 : Inv x6) (hx7 : Inv x7)
+theorem round_spec (x0 x1 x2 x3 x4 x5 x6 x7 a0 a1 a2 a3 a4 a5 a6 a7 b0 b1 b2 b3 b4 b5 b6 b7 : Nat) (hx0 : Inv x0) (hx1 : Inv x1) (hx2 : Inv x2) (hx3 : Inv x3) (hx4 : Inv x4) (hx5 : Inv x5) (hx6 : Inv x6) (hx7 : Inv x7)
     (ha0 : a0 ≤ 18446744065119617025) (ha1 : a1 ≤ 18446744065119617025) (ha2 : a2 ≤ 18446744065119617025) (ha3 : a3 ≤ 18446744065119617025) (ha4 : a4 ≤ 18446744065119617025) (ha5 : a5 ≤ 18446744065119617025) (ha6 : a6 ≤ 18446744065119617025) (ha7 : a7 ≤ 18446744065119617025)
     (hb0 : b0 ≤ 18446744065119617025) (hb1 : b1 ≤ 18446744065119617025) (hb2 : b2 ≤ 18446744065119617025) (hb3 : b3 ≤ 18446744065119617025) (hb4 : b4 ≤ 18446744065119617025) (hb5 : b5 ≤ 18446744065119617025) (hb6 : b6 ≤ 18446744065119617025) (hb7 : b7 ≤ 18446744065119617025) :
     (∀ e ∈ roundWith rpjive [x0, x1, x2, x3, x4, x5, x6, x7] [a0, a1, a2, a3, a4, a5, a6, a7] [b0, b1, b2, b3, b4, b5, b6, b7], Inv e) ∧
@@ -101,7 +100,7 @@ theorem round_spec (hglue : WinterProofs.C11.Mds8.mm_eq_tail_statement)
   have s6 := Sbox.F64.exp7_pow x6 hx6
   have s7 := Sbox.F64.exp7_pow x7 hx7
   obtain ⟨y0, y1, y2, y3, y4, y5, y6, y7, hy, ⟨by0, vy0⟩, ⟨by1, vy1⟩, ⟨by2, vy2⟩, ⟨by3, vy3⟩, ⟨by4, vy4⟩, ⟨by5, vy5⟩, ⟨by6, vy6⟩, ⟨by7, vy7⟩⟩ :=
-    mds_spec hglue (Gen.F64.exp7 x0) (Gen.F64.exp7 x1) (Gen.F64.exp7 x2) (Gen.F64.exp7 x3) (Gen.F64.exp7 x4) (Gen.F64.exp7 x5) (Gen.F64.exp7 x6) (Gen.F64.exp7 x7) (Nat.lt_trans s0.1 (by decide)) (Nat.lt_trans s1.1 (by decide)) (Nat.lt_trans s2.1 (by decide)) (Nat.lt_trans s3.1 (by decide)) (Nat.lt_trans s4.1 (by decide)) (Nat.lt_trans s5.1 (by decide)) (Nat.lt_trans s6.1 (by decide)) (Nat.lt_trans s7.1 (by decide))
+    mds_spec (Gen.F64.exp7 x0) (Gen.F64.exp7 x1) (Gen.F64.exp7 x2) (Gen.F64.exp7 x3) (Gen.F64.exp7 x4) (Gen.F64.exp7 x5) (Gen.F64.exp7 x6) (Gen.F64.exp7 x7) (Nat.lt_trans s0.1 (by decide)) (Nat.lt_trans s1.1 (by decide)) (Nat.lt_trans s2.1 (by decide)) (Nat.lt_trans s3.1 (by decide)) (Nat.lt_trans s4.1 (by decide)) (Nat.lt_trans s5.1 (by decide)) (Nat.lt_trans s6.1 (by decide)) (Nat.lt_trans s7.1 (by decide))
   have c0 := add_any y0 a0 by0 ha0
   have c1 := add_any y1 a1 by1 ha1
   have c2 := add_any y2 a2 by2 ha2
@@ -119,7 +118,7 @@ theorem round_spec (hglue : WinterProofs.C11.Mds8.mm_eq_tail_statement)
   have t6 := Sbox.F64.invSbox_pow (Gen.F64.add y6 a6) c6.1
   have t7 := Sbox.F64.invSbox_pow (Gen.F64.add y7 a7) c7.1
   obtain ⟨z0, z1, z2, z3, z4, z5, z6, z7, hz, ⟨bz0, vz0⟩, ⟨bz1, vz1⟩, ⟨bz2, vz2⟩, ⟨bz3, vz3⟩, ⟨bz4, vz4⟩, ⟨bz5, vz5⟩, ⟨bz6, vz6⟩, ⟨bz7, vz7⟩⟩ :=
-    mds_spec hglue (Model.Rescue.F64.invSbox (Gen.F64.add y0 a0)) (Model.Rescue.F64.invSbox (Gen.F64.add y1 a1)) (Model.Rescue.F64.invSbox (Gen.F64.add y2 a2)) (Model.Rescue.F64.invSbox (Gen.F64.add y3 a3)) (Model.Rescue.F64.invSbox (Gen.F64.add y4 a4)) (Model.Rescue.F64.invSbox (Gen.F64.add y5 a5)) (Model.Rescue.F64.invSbox (Gen.F64.add y6 a6)) (Model.Rescue.F64.invSbox (Gen.F64.add y7 a7)) (Nat.lt_trans t0.1 (by decide)) (Nat.lt_trans t1.1 (by decide)) (Nat.lt_trans t2.1 (by decide)) (Nat.lt_trans t3.1 (by decide)) (Nat.lt_trans t4.1 (by decide)) (Nat.lt_trans t5.1 (by decide)) (Nat.lt_trans t6.1 (by decide)) (Nat.lt_trans t7.1 (by decide))
+    mds_spec (Model.Rescue.F64.invSbox (Gen.F64.add y0 a0)) (Model.Rescue.F64.invSbox (Gen.F64.add y1 a1)) (Model.Rescue.F64.invSbox (Gen.F64.add y2 a2)) (Model.Rescue.F64.invSbox (Gen.F64.add y3 a3)) (Model.Rescue.F64.invSbox (Gen.F64.add y4 a4)) (Model.Rescue.F64.invSbox (Gen.F64.add y5 a5)) (Model.Rescue.F64.invSbox (Gen.F64.add y6 a6)) (Model.Rescue.F64.invSbox (Gen.F64.add y7 a7)) (Nat.lt_trans t0.1 (by decide)) (Nat.lt_trans t1.1 (by decide)) (Nat.lt_trans t2.1 (by decide)) (Nat.lt_trans t3.1 (by decide)) (Nat.lt_trans t4.1 (by decide)) (Nat.lt_trans t5.1 (by decide)) (Nat.lt_trans t6.1 (by decide)) (Nat.lt_trans t7.1 (by decide))
   have d0 := add_any z0 b0 bz0 hb0
   have d1 := add_any z1 b1 bz1 hb1
   have d2 := add_any z2 b2 bz2 hb2
@@ -154,5 +153,109 @@ theorem round_spec (hglue : WinterProofs.C11.Mds8.mm_eq_tail_statement)
       c0.2, c1.2, c2.2, c3.2, c4.2, c5.2, c6.2, c7.2,
       vy0, vy1, vy2, vy3, vy4, vy5, vy6, vy7,
       s0.2, s1.2, s2.2, s3.2, s4.2, s5.2, s6.2, s7.2]
+
+
+/-! ### the permutation -/
+
+theorem explicit8 (l : List Nat) (h : l.length = 8) : ∃ x0 x1 x2 x3 x4 x5 x6 x7 : Nat, l = [x0, x1, x2, x3, x4, x5, x6, x7] := by
+  rcases l with _ | ⟨x0, l⟩
+  · simp at h
+  rcases l with _ | ⟨x1, l⟩
+  · simp at h
+  rcases l with _ | ⟨x2, l⟩
+  · simp at h
+  rcases l with _ | ⟨x3, l⟩
+  · simp at h
+  rcases l with _ | ⟨x4, l⟩
+  · simp at h
+  rcases l with _ | ⟨x5, l⟩
+  · simp at h
+  rcases l with _ | ⟨x6, l⟩
+  · simp at h
+  rcases l with _ | ⟨x7, l⟩
+  · simp at h
+  rcases l with _ | ⟨y, l⟩
+  · exact ⟨x0, x1, x2, x3, x4, x5, x6, x7, rfl⟩
+  · simp at h
+
+theorem mds_len (l : List Nat) (h : l.length = 8) : (mds8 l).length = 8 := by
+  obtain ⟨x0, x1, x2, x3, x4, x5, x6, x7, rfl⟩ := explicit8 l h
+  show (match Gen.Mds8.mds_multiply x0 x1 x2 x3 x4 x5 x6 x7 with
+    | (r0, r1, r2, r3, r4, r5, r6, r7) => [r0, r1, r2, r3, r4, r5, r6, r7]).length = 8
+  generalize Gen.Mds8.mds_multiply x0 x1 x2 x3 x4 x5 x6 x7 = t
+  obtain ⟨r0, r1, r2, r3, r4, r5, r6, r7⟩ := t
+  rfl
+
+/-- the round on lists of the right length -/
+theorem round_list (st k1 k2 : List Nat)
+    (hl : st.length = 8) (hl1 : k1.length = 8) (hl2 : k2.length = 8) (hs : AllInv S64 st)
+    (h1 : ∀ k ∈ k1, k ≤ 18446744065119617025) (h2 : ∀ k ∈ k2, k ≤ 18446744065119617025) :
+    (roundWith rpjive st k1 k2).length = 8 ∧ AllInv S64 (roundWith rpjive st k1 k2) ∧
+    (roundWith rpjive st k1 k2).map val = refRound (st.map val) (k1.map val) (k2.map val) := by
+  have hlen : (roundWith rpjive st k1 k2).length = 8 := by
+    have e : roundWith rpjive st k1 k2 = List.zipWith Gen.F64.add
+        (mds8 ((List.zipWith Gen.F64.add (mds8 (st.map Gen.F64.exp7)) k1).map Model.Rescue.F64.invSbox)) k2 := rfl
+    rw [e, List.length_zipWith, mds_len _ (by rw [List.length_map, List.length_zipWith, mds_len _ (by rw [List.length_map, hl]), hl1]; exact Nat.min_self 8), hl2]
+    exact Nat.min_self 8
+  obtain ⟨x0, x1, x2, x3, x4, x5, x6, x7, rfl⟩ := explicit8 st hl
+  obtain ⟨a0, a1, a2, a3, a4, a5, a6, a7, rfl⟩ := explicit8 k1 hl1
+  obtain ⟨b0, b1, b2, b3, b4, b5, b6, b7, rfl⟩ := explicit8 k2 hl2
+  have r := round_spec x0 x1 x2 x3 x4 x5 x6 x7 a0 a1 a2 a3 a4 a5 a6 a7 b0 b1 b2 b3 b4 b5 b6 b7
+    (hs x0 (by simp)) (hs x1 (by simp)) (hs x2 (by simp)) (hs x3 (by simp)) (hs x4 (by simp)) (hs x5 (by simp)) (hs x6 (by simp)) (hs x7 (by simp))
+    (h1 a0 (by simp)) (h1 a1 (by simp)) (h1 a2 (by simp)) (h1 a3 (by simp)) (h1 a4 (by simp)) (h1 a5 (by simp)) (h1 a6 (by simp)) (h1 a7 (by simp))
+    (h2 b0 (by simp)) (h2 b1 (by simp)) (h2 b2 (by simp)) (h2 b3 (by simp)) (h2 b4 (by simp)) (h2 b5 (by simp)) (h2 b6 (by simp)) (h2 b7 (by simp))
+  exact ⟨hlen, r.1, r.2⟩
+
+def rowsLen (t : List (List Nat)) : Bool := t.all fun r => decide (r.length = 8)
+
+theorem ark_rows_len : rowsLen Gen.Rp64Jive.ARK1 = true ∧ rowsLen Gen.Rp64Jive.ARK2 = true := by
+  constructor <;> decide +kernel
+
+def GoodK (k1 k2 : List Nat) : Prop :=
+  k1.length = 8 ∧ k2.length = 8 ∧ (∀ k ∈ k1, k ≤ 18446744065119617025) ∧ (∀ k ∈ k2, k ≤ 18446744065119617025)
+
+theorem row_good {t : List (List Nat)} (hs : Misc.arkSmall t = true) (hl : rowsLen t = true) {r : List Nat} (hr : r ∈ t) :
+    (r.map Gen.F64.new).length = 8 ∧ ∀ k ∈ r.map Gen.F64.new, k ≤ 18446744065119617025 := by
+  constructor
+  · rw [List.length_map]
+    have := (List.all_eq_true.mp hl) r hr
+    simpa using this
+  · intro k hk
+    obtain ⟨c, hc, rfl⟩ := List.mem_map.mp hk
+    have := (List.all_eq_true.mp ((List.all_eq_true.mp hs) r hr)) c hc
+    simpa using this
+
+theorem ark_good : ∀ k ∈ List.zip rpjive.ark1 rpjive.ark2, GoodK k.1 k.2 := by
+  rintro ⟨ka, kb⟩ hk
+  obtain ⟨h1, h2⟩ := List.of_mem_zip hk
+  have e1 : rpjive.ark1 = Gen.Rp64Jive.ARK1.map (fun r => r.map Gen.F64.new) := rfl
+  have e2 : rpjive.ark2 = Gen.Rp64Jive.ARK2.map (fun r => r.map Gen.F64.new) := rfl
+  rw [e1] at h1
+  rw [e2] at h2
+  obtain ⟨r1, hr1, q1⟩ := List.mem_map.mp h1
+  obtain ⟨r2, hr2, q2⟩ := List.mem_map.mp h2
+  rw [← q1, ← q2]
+  have g1 := row_good Misc.jive_ark_small.1 ark_rows_len.1 hr1
+  have g2 := row_good Misc.jive_ark_small.2 ark_rows_len.2 hr2
+  exact ⟨g1.1, g2.1, g1.2, g2.2⟩
+
+/-- the reference permutation: the reference rounds with the constants of the tables, as residues -/
+noncomputable def refPerm (v : List (ZMod P)) : List (ZMod P) :=
+  (List.zip rpjive.ark1 rpjive.ark2).foldl (fun v k => refRound v (k.1.map val) (k.2.map val)) v
+
+/-- `apply_permutation` on valid raw words denotes the reference permutation -/
+theorem perm_sem (st : List Nat) (hl : st.length = 8)
+    (hs : AllInv S64 st) :
+    (applyPermutation rpjive st).length = 8 ∧ AllInv S64 (applyPermutation rpjive st) ∧
+    (applyPermutation rpjive st).map val = refPerm (st.map val) :=
+  fold_sem S64 rpjive 8 GoodK refRound
+    (fun st k1 k2 hl hi hg => round_list st k1 k2 hl hg.1 hg.2.1 hi hg.2.2.1 hg.2.2.2)
+    (List.zip rpjive.ark1 rpjive.ark2) st ark_good hl hs
+
+/-- the permutation as the sponge sees it -/
+noncomputable def perm : PermSem rpjive P where
+  S := S64
+  refPerm := refPerm
+  perm_ok := fun st hl hs => perm_sem st hl hs
 
 end WinterProofs.C11.Round8
